@@ -91,10 +91,11 @@ def gen(fmts, heavy, nps):
                     # pairwise-ish: full product with alignment for the light tier is large; rotate alignment and history
                     for al_i, (hints, ed, envh) in enumerate(ALIGNS):
                         if not heavy and (al_i + ai + vi + di) % 4 != 0: continue
-                        for hi in range(5):
+                        for hi in range(6):
                             if hi < 4 and not heavy and (hi + vi + al_i) % 2 != 0: continue
                             for np in nps:
                                 if hi == 4 and (np < 2 or not any(d[1] is None for d in dims) or not vars_ or (not heavy and (ai + al_i) % 2)): continue
+                                if hi == 5 and (not any(d[1] is None for d in dims) or not vars_ or al_i > 1 or (np > 1 and ai % 2) or (not heavy and (ai + vi) % 2)): continue
                                 if hi < 4 and np > 1 and (hi + ai) % 3 != 0: continue
                                 env = {'PNETCDF_HINTS': ';'.join('%s=%s' % kv for kv in envh.items())} if envh else None
                                 p = Prog('S-f%d-d%d-a%d-v%d-al%d-h%d-np%d' % (fmt, di, ai, vi, al_i, hi, np), np, fmt, hints, env)
@@ -107,7 +108,9 @@ def gen(fmts, heavy, nps):
                                             p.do(dict(op='put_att', v=-1, name=a[0], xtype=a[1], vals=a[2][:1])); break
                                     if vars_ and p.m.vars[0]['atts']:
                                         p.do(dict(op='put_att', v=0, name='units', xtype=D.NC_CHAR, vals=b'K'))
-                                p.do(ed); p.checkpoint('enddef')
+                                # h5: free space between the fixed-size and the record section; the later redefinition outgrows the header
+                                # extent (fixed-size variables shift into the gap) and adds a record variable (records must be re-strided)
+                                p.do(dict(op='_enddef', h_minfree=0, v_align=4, v_minfree=2000, r_align=4) if hi == 5 else ed); p.checkpoint('enddef')
                                 if hi >= 1:
                                     p.write_all(); p.do(dict(op='sync')); p.checkpoint('sync')
                                 if hi == 2:
@@ -135,6 +138,13 @@ def gen(fmts, heavy, nps):
                                         p.do(dict(op='redef'))
                                         p.do(dict(op='put_att', v=-1, name='zz_big', xtype=D.NC_INT, vals=list(range(200))))
                                         p.do(dict(op='enddef')); p.checkpoint('enddef after independent appends')
+                                if hi == 5:
+                                    p.write_all(nrec=3); p.do(dict(op='sync')); p.checkpoint('sync')
+                                    p.do(dict(op='redef'))
+                                    p.do(dict(op='put_att', v=-1, name='zz_big', xtype=D.NC_INT, vals=list(range(150))))
+                                    p.do(dict(op='def_var', name='nr', xtype=D.NC_SHORT, dims=[next(i for i, d in enumerate(dims) if d[1] is None)]))
+                                    p.do(dict(op='enddef')); p.checkpoint('enddef after redef into the gap')
+                                    p.read_all('after redef into the gap')
                                 if hi == 3 and vars_:
                                     n0 = vars_[0][0]
                                     if len(n0) > 1 and not any(v[0] == n0[0] for v in vars_):
